@@ -100,6 +100,10 @@ def facts_dir(cfgset="default+uring", log=None):
         out = os.path.join(CACHE, "facts", h, cfgset)
         stamp = os.path.join(out, "COMPLETE")
         if os.path.exists(stamp) and all(os.path.exists(os.path.join(out, e + ".json")) for e in EXPECTED):
+            try:
+                os.utime(os.path.dirname(out))  # LRU: a hit keeps the set (prune() sorts by mtime)
+            except OSError:
+                pass
             return out
         if os.path.isdir(out):
             shutil.rmtree(out)
